@@ -83,6 +83,20 @@ def m_slice_get(it, callee, args):
     return none()
 
 
+def m_bytes_range(it, callee, args):
+    v = val(args[0]); r = val(args[1])
+    if r.name == "Range": lo, hi = r.fields[0], r.fields[1]
+    elif r.name == "RangeFrom": lo, hi = r.fields[0], v.len
+    elif r.name == "RangeTo": lo, hi = z3.BitVecVal(0, 64), r.fields[0]
+    else: raise Unsupported("range kind " + r.name)
+    ok = z3.And(z3.ULE(lo, hi), z3.ULE(hi, v.len))
+    if "::get" in callee:
+        if it.branch(ok): return some(ByteVec(hi - lo, v.arr, v.off + lo))
+        return none()
+    if it.branch(ok): return ByteVec(hi - lo, v.arr, v.off + lo)
+    raise Panic("byte slice index out of range")
+
+
 def m_index(it, callee, args):
     v = val(args[0]); i = val(args[1])
     if it.branch(z3.ULT(i, v.len)):
@@ -221,6 +235,8 @@ CONTAINER_MODELS = [
     (R(r"<Vec<u8> as Deref>::deref$|<Vec<u8> as DerefMut>::deref_mut$|Vec::<u8>::as_slice$|Vec::<u8>::as_mut_slice$"), m_deref_same),
     (R(r"<impl \[u8\]>::get::<usize>$|<\[u8\]>::get::<usize>$|<impl \[u8\]>::get_mut::<usize>$|<\[u8\]>::get_mut::<usize>$|Vec::<u8>::get$"), m_slice_get),
     (R(r"<Vec<u8> as (std::ops::)?Index(Mut)?<usize>>::index(_mut)?$|<\[u8\] as (std::ops::)?Index(Mut)?<usize>>::index(_mut)?$"), m_index),
+    (R(r"<impl \[u8\]>::get::<std::ops::Range(From|To)?<usize>>$|<\[u8\] as (std::ops::)?Index<std::ops::Range(From|To)?<usize>>>::index$|<Vec<u8> as (std::ops::)?Index<std::ops::Range(From|To)?<usize>>>::index$"), m_bytes_range),
+    (R(r"<impl \[u8\]>::to_vec$"), lambda it, c, a: ByteVec(val(a[0]).len, val(a[0]).arr, val(a[0]).off)),
     (R(r"must_use::<"), lambda it, c, a: a[0]),
     (R(r"Box::<.*>::new$"), lambda it, c, a: __import__("mirsym.interp", fromlist=["box"]).box(a[0])),
     (R(r"BTreeMap::<u64, .*>::iter$"), m_map_iter),
